@@ -308,6 +308,59 @@ def plan_add(w: World, op: dict) -> Plan:
 
 
 # ------------------------------------------------------------------------------
+# bulk add (one step = many add() calls): reaches sizes, child counts and depths
+# at "natural" boundaries (255..257, 1000..1025) that single adds never reach
+# ------------------------------------------------------------------------------
+@handler("bulk")
+def plan_bulk(w: World, op: dict) -> Plan:
+    si, pm = w.mnode(op["parent"])
+    rp = w.real(op["parent"])
+    if pm is None or rp is None:
+        return Plan(SKIP)
+    mt = tree_of(w, si)
+    n = int(op["n"])
+    chain = bool(op.get("chain"))
+    clone_key = op.get("clone_leaf")
+    prefix = f"B{op['id']}_"
+    uidgen = UidGen(op["id"])
+    typed = mt.typed
+    if mt.flavour == "fs":
+        return Plan(EXCLUDED, why="string data in a FileSystemTree")
+    objs = [w.pool.get(f"s:{prefix}{i}") for i in range(n)]
+    leaf = w.pool.get(clone_key) if clone_key else None
+    if leaf is not None:
+        try:
+            leaf_did = mt.rule(leaf)
+        except TypeError:
+            return Plan(EXCLUDED, why="unhashable leaf")
+
+    def call():
+        cur = rp
+        last = None
+        for o in objs:
+            last = cur.add(o)
+            if leaf is not None:
+                last.add(leaf)
+            if chain:
+                cur = last
+        return last
+
+    def apply():
+        cur = pm
+        for o in objs:
+            m = MNode(uidgen(), o, mt.rule(o), kind=DEFAULT_KIND if typed else None)
+            cur.insert(m, None)
+            if leaf is not None:
+                m.insert(MNode(uidgen(), leaf, leaf_did, kind=DEFAULT_KIND if typed else None),
+                         None)
+            if chain:
+                cur = m
+
+    return Plan(OK, call=call, apply=apply, trigger="bulk/" + ("chain" if chain else "wide")
+                + ("/clones" if leaf is not None else ""), slots=(si,))
+
+
+# ------------------------------------------------------------------------------
 # move_to
 # ------------------------------------------------------------------------------
 @handler("move")
